@@ -35,11 +35,15 @@ What the model cannot exhibit (DESIGN section 5):
 * the OS page cache / `fsync` ordering — the file is what was last written;
 * a periodic save that itself fails (`PersistenceWriteError` inside the saver task) — outside the
   fault positions the property quantifies over; see the note at `exit_clean`;
-* cancellation of the main coroutine itself while it is inside `__aenter__`, `disconnect` or `stop`
-  (cancellation while it is inside the *body* is the fault `bodyCancelled`, see `cancel_exit_clean`).
+* cancellation of the main coroutine itself while it is inside `disconnect` or `stop` (cancellation while it is inside
+  the *body* is the fault `bodyCancelled`, see `cancel_exit_clean`; cancellation while it is inside `load` or `connect`
+  of `__aenter__` is a failure of that step with a cancellation-like class - `LL.Classes` in the generated machine:
+  `LL.load_failure_touches_nothing_generated`, `LL.connect_failure_leaves_nothing_generated`; the correspondence run
+  cancels the task at every loop iteration of the entry: harness/props/enterfail.py).
 -/
 import AioMySensors.Lemmas.Lifecycle
 import AioMySensors.Lemmas.LifecycleChurn
+import AioMySensors.Lemmas.LifecycleEnter
 
 namespace AioMySensors.C16
 open AioMySensors AioMySensors.Lifecycle
@@ -197,6 +201,34 @@ theorem load_failure_starts_nothing (f : Faults) (t v : Nat) (cs : List Choice)
   rw [hf] at h4 h5 h7
   have hst : s.started = false := h7 hl
   exact ⟨(h5 hst).2, hst, by rw [h4]; simp [expectedOutcome, hl]⟩
+
+/-- **A failing load touches nothing** - at no moment.  For every schedule `cs` (finished or not), start time and file
+content: when the load of the statement fails, no saver task was ever created, no save was begun and no final save
+performed, the context was not entered and the transport not touched, and THE FILE HOLDS WHAT IT HELD when the statement
+began.  (The file is the only copy of the registry between two sessions; a start-up that fails while loading - a
+transient I/O error, one entry the loader refuses, a start-up timeout that cancels the task inside `load` - is followed
+by another start-up that reads it.  A clean-up handler that "saves a final time" after a load that did not complete
+would write the empty or partial registry over it.)  The correspondence run makes the load fail at each of its file
+operations, on every class of content the loader refuses, and cancels the task at every loop iteration of the entry,
+and compares the file's bytes: harness/props/enterfail.py. -/
+theorem load_failure_touches_nothing (f : Faults) (t v : Nat) (cs : List Choice) (hl : f.loadFails = true) :
+    let s := run (init f t v) cs
+    s.file = .holds v ∧ s.saver = .absent ∧ s.started = false ∧ s.saveStarts = [] ∧ s.finalSaveDone = false ∧
+    s.entered = false ∧ s.disconnectTried = false ∧
+    (s.main = .finished → s.outcome = some .loadErr) := by
+  intro s
+  have hf : s.faults = f := faults_run _ cs
+  have hi : LoadFailInv v s := loadFail_run v _ cs (loadFail_init f t v)
+  obtain ⟨hm, hsv, _, hfile, hss, hfd, hst, _, hen, hdt, _⟩ := hi (by rw [hf]; exact hl)
+  refine ⟨hfile, hsv, hst, hss, hfd, hen, hdt, fun hfin => ?_⟩
+  rcases hm with ⟨h, _⟩ | ⟨_, h⟩
+  · rw [h] at hfin; cases hfin
+  · exact h
+
+/-- ... and the statement does complete: one step of the main coroutine ends it with the load's error. -/
+theorem load_failure_completes (f : Faults) (t v : Nat) (hl : f.loadFails = true) :
+    (run (init f t v) [.main]).main = .finished ∧ (run (init f t v) [.main]).outcome = some .loadErr := by
+  simp [run, step, init, mainRunnable, mainStep, hl]
 
 /-- **Cadence.**  In virtual time (file operations take none, a due timer fires before time moves
 on), as long as `stop` has not cancelled the saver: whenever the saver has nothing left to do at the
